@@ -1,10 +1,11 @@
-from . import streams_cavity, streams_collapse, cli, streams_mixed
+from . import streams_cavity, streams_collapse, cli, streams_mixed, streams_cavity2
 
 ID = 'C01'
-PROPS_MODULE = ['Refine.Props.C01', 'Refine.Props.C13Collapse', 'Refine.Props.C02Mixed']
+PROPS_MODULE = ['Refine.Props.C01', 'Refine.Props.C13Collapse', 'Refine.Props.C02Mixed', 'Refine.Props.C01Cavity2']
 STREAMS = [streams_cavity.OPS, streams_cavity.BAD, streams_cavity.VALID,
            cli.ADAPT, streams_cavity.ADAPT_PASSES, cli.ADAPT_MPI, streams_collapse.STARS, streams_collapse.RUN,
-           streams_mixed.FN, streams_mixed.RUN, streams_mixed.ADAPT_MIXED, streams_mixed.ADAPT_MIXED_MPI]
+           streams_mixed.FN, streams_mixed.RUN, streams_mixed.ADAPT_MIXED, streams_mixed.ADAPT_MIXED_MPI] + \
+          list(streams_cavity2.STREAMS)
 
 EXPLANATION = (
     'Proved in Lean for the executable model of the cavity machine of src/ref_cavity.c, for every abelian group G '
@@ -64,7 +65,8 @@ EXPLANATION = (
     'configurations with 0..3 neighbours of each kind in every table position, incl. pyramids-without-prisms, '
     'prisms-without-pyramids, hexes only), mixed_smooth (validate: ref_smooth_tet_improve and both interior loops of '
     'ref_smooth_pass), mixed_run (validate: hooked real passes on hex+pyramid+tet, prism-layer+tet, all-kinds, hex-island and planar tri+quad grids; '
-    'frozen cells compared with the initial ones at EVERY hook event) and the end-to-end oracle cli_adapt_mixed.')
+    'frozen cells compared with the initial ones at EVERY hook event) and the end-to-end oracle cli_adapt_mixed.'
+    " Work package cavity2 (Props/C01Cavity2.lean on Model/Cavity2.lean + Model/Cavity.lean; lemmas Lemmas/Cavity2*.lean): the cavity operator WITH boundary triangles, the enlarge loop and the form functions. Boundary bookkeeping: ledgerVal = sum over live faces minus the cone of the live segs from the seg node; insertSeg_ledger - a successful 3-D ref_cavity_insert_seg (tets listed, state unknown: the guard of add_seg_face / remove_seg_face / remove_seg_add_tets) either flags the cavity (face-id mismatch -> BOUNDARY_CONSTRAINED, insertSeg_id_mismatch; ghost tet -> PARTITION_CONSTRAINED) or leaves ledgerVal unchanged up to the tets remove_seg_add_tets pulls in, which enter with their boundary minus the faces that coincide with the two tris on the cancelled seg, and moves the seg chain by psi(s) for every antisymmetric psi; replace_conforming_boundary - face verification passed + ledger equation F - cone(dS) = dT - S  =>  (new tets - new boundary tris) has the signed boundary of (removed tets - removed boundary tris) for every alternating phi vanishing on repeated nodes; replace_mesh_conforming_boundary / cavity_history_conforming_boundary - meshBd phi (tets minus boundary tris) and the grid invariant are preserved by every accepted replacement and every finite history of them (CavStep2: tet AND tri cavities); ledgerOkAt_ledgerEq / certified_step - the executable certificate certOk (listed cells live, live faces non-degenerate, signed multiplicity of every unordered face in live faces + listed tris against cone of unattached segs + faces of listed tets is zero) implies the ledger equation for every coefficient group, so an accepted replace of a certified cavity is a step of the history theorem - the drivers evaluate certOk on every cavity the real code hands to ref_cavity_replace (function level and every cavity_replace begin record of real passes); replace_ids_from_segs / replace_tris_ids / certified_ids_partial - new boundary tris take nodes and face id from a live seg, and with segIdsOk the id of a removed tri: no new face id appears; replace_area_vector - when the seg chain is the boundary of the listed tris the VECTOR area (all three components of sum ref_node_tri_normal) of the new boundary tris equals that of the removed ones exactly (planar patch: the patch area); swap_area_conserved - that hypothesis is discharged for the boundary edge swap (the four segs built from ref_swap_node23 are the boundary of the two listed tris). Enlarge loop: the C has NO iteration cap (while (keep_growing)); the model runs enlarge_visible with two budgets, (#tet slots + 1) sweeps and as many cavity-changing enlarge_face calls per sweep; enlargeVisible_terminates / enlargeConforming_terminates - on a cavity whose lists are duplicate free and live the budgets are never exhausted (every such call lists a new live tet, resp. a new live boundary tri), what remains is a normal return or a sweep that asks for growth and changes nothing (Res.hang: the C spins forever); enlargeVisible_visible - REF_SUCCESS + VISIBLE from state unknown means: final face verification passed, ref_cavity_manifold said yes, every tet replace will create has valid nodes and ref_node_tet_vol not <= min_volume as the modelled predicate decides it, seg side untouched, tet_list only extended, and the ledger equation and non-degeneracy of the live faces carried along every enlarge_face / add_tet step; enlargeVisible_step - so the result is a CavStep2 once replace accepts. Form functions on a conforming grid (MeshConf: GridOK, adjacency walk = live cells, meshBd chi = 0 for all chi): edgeMatched_of_conforming / ballMatched_of_conforming (localisation with phi restricted to the faces through the edge / through n0 or n1) give formEdgeSwap_ledger, formEdgeSplit_ledger, formEdgeCollapse_ledger - a call that returns ok with state unknown and pulled no tet beyond the cells around the edge / the two balls lists exactly those cells and satisfies the ledger equation (face list = boundary of the tet set, skipped faces cancelled against each other and the listed boundary tris, cone of the segs added); swap_accept_conforming (form_edge_swap -> check_visible -> replace, the 3-D edge swap of ref_cavity_swap_tet_pass) and collapse_accept_conforming (form_edge_collapse -> enlarge_visible -> replace, the cavity fall-back of ref_collapse_to_remove_node1): accepted => the step is a CavStep2 and the new grid is again conforming with the grid invariant; non-vacuity by decide on an 8-tet star around an interior edge (8 tets -> 12) and a boundary edge with two tris (4 tets -> 6, tris (0,1,2),(0,6,1) -> (0,6,2),(6,1,2), id inherited). Rejects (C13): replace_requires_visible / replace_inconsistent_no_trace - ref_cavity_replace on a cavity that is not VISIBLE or not verified returns the grid value (cells, node validity, free lists) untouched; collapseCavityPath_no_trace / splitCavityPath_no_trace / swapTetCell_no_trace - the grid a modelled caller hands back differs from its input only through ref_cavity_replace of a VISIBLE cavity that passed the caller's acceptance test; swapTetTrial_accepts, cavRatio_band - what the acceptance tests require. Tie (streams cavity2_*): harness h_cavity2 (white-box ref_cavity.c) against refdrv cavity2 - form_edge_swap / _split / _collapse / form_ball / form_insert / form_insert_tet, add_tet_without_faceid, enlarge_face / _seg / _visible / _conforming / _combined, ref_cavity_visible, ref_cavity_manifold, check_visible, ratio / change (Float, bit patterns) / normdev, replace, ref_swap_node23 on generated edge stars (degree 3..12, interior / boundary with 1-3 face ids, flat / creased, volumes around min_volume, ghost nodes), vertex balls and jittered boxes, state compared after every call (f2n / s2n slot by slot, blank chains, lists, state); run level: hooked real ref_cavity_pass / ref_collapse_pass / ref_adapt_pass on small 3-D grids - every cavity_replace begin record is replayed by the model (certOk, verification, visibility, replace) and the accept record must equal the model result; every create..free without a replace must leave the structural grid hash unchanged.")
 
 ASSUMPTIONS = [
     'mixed-element part: the cavity machine itself is not re-modelled on grids with non-simplex cells (only its gates and the '
@@ -77,15 +79,7 @@ ASSUMPTIONS = [
     'only guarded collapses" are PROVED in Props/C13Collapse (collapse_conforming, collapse_history_conforming, '
     'collapse_manifold_no_duplicate, collapse_quality_positive, toRemoveNode1_applies_guarded) and tied by the '
     'collapse_stars / collapse_run streams; the sentence on collapse in the next item is superseded to that extent',
-    'operators whose conformity is PROVED: the cavity replace for tet cavities built with add_tet (this package, up '
-    'to whole histories: cavity_history_conforming) and for 2-D tri cavities built with add_tri; edge split and 2-D '
-    'edge swap by the meshops package (Props/C13). Only TIED (differential execution + oracles), not proved: '
-    'collapse by substitution (ref_collapse_edge), node smoothing, the pass drivers and their selection order, the '
-    '3-D boundary bookkeeping between tris, segs and seg-faces (ref_cavity_add_seg_face / remove_seg_face / '
-    'remove_seg_add_tets / add_tet_without_faceid: CavStep requires tri_list and the seg list to be empty), the '
-    'enlarge_* loops, form_edge_split/collapse (modelled and tied; covered by replace_conforming once their face '
-    'list is non-degenerate and verified, but not by the history theorem), cavity_ratio / cavity_change acceptance '
-    'tests, final numbering, readers/writers',
+    'operators whose conformity is PROVED: the cavity replace for tet cavities built with add_tet (cavity_history_conforming), for 2-D tri cavities built with add_tri, and - package cavity2 - for tet + boundary-tri cavities under the ledger equation (cavity_history_conforming_boundary), which is proved to be kept by the 3-D seg bookkeeping (ref_cavity_add_seg_face / remove_seg_face / remove_seg_add_tets: insertSeg_ledger), by enlarge_face / enlarge_visible (enlargeVisible_visible) and to be established by form_edge_swap / form_edge_split / form_edge_collapse on a conforming grid when no tet beyond the cells around the edge / the two vertex balls is pulled in by a cancelling seg (side condition `hextra`, decidable, true on manifold boundaries); whole pipelines: swap_accept_conforming, collapse_accept_conforming; every other cavity is covered through the executable certificate certOk (certified_step), evaluated by the drivers on every cavity handed to ref_cavity_replace. Edge split and 2-D edge swap by the meshops package (Props/C13). Only TIED (differential execution + oracles), not proved: ref_cavity_enlarge_seg / enlarge_conforming / enlarge_combined (modelled with budgets and tied; for cavities that list tets termination within the budgets and `the lists stay duplicate free and live` are proved - enlargeConforming_terminates, Lemmas/Cavity2Conf Grow - but the ledger equation across an add_tri step is not: the faces skipped by remove_seg_add_tets match the added tri only if its tet was not listed before, which the final face verification / certOk decide case by case; the pure-surface case tet_list = [] is the 2-D theory of Props/C01), ref_cavity_add_tet_without_faceid, form_ball, form_insert, form_insert_tet (modelled, tied, no theorem; form_insert2 / _unconstrain of ref_layer are not modelled), the loop of ref_cavity_swap_tet_pass over cells and its gates (ref_cavity_edge_swap_boundary: a parameter of swapTetCell), ref_cavity_normdev (needs CAD: constant without it), the NUMBERS of cavity_ratio / cavity_change (Float-tied; only their logic is proved), node smoothing, the pass drivers and their selection order, final numbering, readers/writers. The non-degeneracy of the live faces (three distinct nodes) is a clause of certOk / a hypothesis `hnd` of the pipeline theorems, not derived from the grid; that the adjacency walk lists exactly the live cells (OrderOK) is a hypothesis on the input grid of the a-priori theorems (container property, C14), its preservation by ref_cavity_replace is not proved here; vector-area conservation takes the seg chain = boundary of the listed tris as a hypothesis, discharged for form_edge_swap only (swap_area_conserved); `the set of face ids is unchanged` is proved as `no new id appears` only (certified_ids_partial)',
     'valid3_signedConforming takes the orientation clause valid3Orient as an explicit hypothesis: Valid3 as coded '
     'counts unordered faces; that the two cells of a face see it with opposite orientation follows from positive '
     'volumes only geometrically (not proved). refine`s own ref_validation_* do not test tri orientation at all '
@@ -107,5 +101,5 @@ ASSUMPTIONS = [
     'heap, pointers, realloc and 32-bit integer width are modelled with unbounded lists / Int, not verified',
 ]
 
-TRUSTED = ['harness/h_cavity.c, checks/streams_cavity.py (generators and the exact-rational oracles), '
+TRUSTED = ['harness/h_cavity.c, harness/h_cavity2.c, checks/streams_cavity.py, checks/streams_cavity2.py (generators and the exact-rational oracles), '
            'checks/cli.py + checks/oracles.py + checks/pyio.py for the end-to-end streams']
